@@ -37,16 +37,20 @@ class RKAdaptiveStepSolver(object):
 
     def setup(self, fcn, ts, y0, params):
         # flatten the y0, will be restore at the end of .solve()
-        self.yshape = y0.shape
+        # (the lambdas below must not refer to self: the solver would hold a
+        # function that holds the solver, a cycle that keeps its tensors alive
+        # until the cyclic garbage collector runs)
+        yshape = y0.shape
+        self.yshape = yshape
         self.y0 = y0.reshape(-1)
 
         direction = ts[1] - ts[0]
         if direction < 0:
             self.ts = -ts
-            self.func = lambda t, y: -fcn(-t, y.reshape(self.yshape), *params).reshape(-1)
+            self.func = lambda t, y: -fcn(-t, y.reshape(yshape), *params).reshape(-1)
         else:
             self.ts = ts
-            self.func = lambda t, y: fcn(t, y.reshape(self.yshape), *params).reshape(-1)
+            self.func = lambda t, y: fcn(t, y.reshape(yshape), *params).reshape(-1)
         self.dtype = y0.dtype
         self.device = y0.device
         n = torch.numel(y0)
